@@ -204,6 +204,21 @@ def run_harness(ctx, scns, tag):
     return res
 
 
+def history_confirms(ctx, scns, s, keep=400):
+    """Run s again in one process behind (at most `keep` of) the scenarios that preceded it in its shard of the main run."""
+    n = 1 if len(scns) < 4000 else max(1, min(6, vlib.NCPU // 2))
+    pos = next(i for i, x in enumerate(scns) if x["id"] == s["id"])
+    shard = scns[pos % n::n]
+    k = next(i for i, x in enumerate(shard) if x["id"] == s["id"])
+    part = shard[max(0, k - keep):k + 1]
+    again = _run_shard(ctx, part, "confirm-history-%d" % s["id"])
+    for r in again.get(s["id"]) or []:
+        sig = compare(s, r)
+        if sig and sig != FINDING:
+            return True
+    return False
+
+
 def is_violation_fail(fail):
     # behaviour of the real code under observation (not of the harness set-up)
     return fail.startswith("panic:") or fail.startswith("doBatchInsert did not finish") or fail.startswith("select")
@@ -389,6 +404,7 @@ def run(ctx):
                     continue        # each one costs a process; three repeated deaths are confirmation enough
             uniq.setdefault(s["id"], s)
         again = run_harness(ctx, list(uniq.values()), "confirm")
+        unrepro = []
         for s, r, sig in bad:
             if s["id"] not in again:
                 continue
@@ -399,6 +415,17 @@ def run(ctx):
             same = [r2 for r2 in again[s["id"]] if same_reports(r2["outcomes"], r["outcomes"]) and r2["table"] == r["table"]
                     and r2.get("fail", "") == r.get("fail", "") and set(r["m"]) <= set(r2["m"])]
             if not same:
-                raise vlib.Undecided("scenario %d failed differently when repeated (%s)" % (s["id"], sig))
+                unrepro.append((s, r, sig))
+        if unrepro:
+            # not the same answer when run alone: the failure may depend on what the same process imported before (state kept
+            # across imports - and an import is one of many in a process's life).  Second confirmation, for the first three of
+            # them: the scenario behind the scenarios that preceded it in its process, in the original order; it is confirmed
+            # if it is answered wrongly again there (by the same oracle).  The others are neither reported nor believed.
+            confirmed = [x for x in unrepro[:3] if history_confirms(ctx, scns, x[0])]
+            if not confirmed:
+                raise vlib.Undecided("scenario %d failed differently when repeated (%s)" % (unrepro[0][0]["id"], unrepro[0][2]))
+            cov["confirmed_behind_their_predecessors"] = len(confirmed)
+            drop = {x[0]["id"] for x in unrepro} - {x[0]["id"] for x in confirmed}
+            bad = [x for x in bad if x[0]["id"] not in drop]
     cov["mismatches_by_signature"] = report(ctx, bad)
     vlib.write_evidence(ctx, "exploration", cov, assumptions=ASSUMPTIONS)
